@@ -159,8 +159,13 @@ def main():
             json.dump(ledger, f, indent=1, sort_keys=True)
         print("ledger updated: %d obligations, %d covers for %s" % (len(obl), len(covers), pid))
     led = ledger.get(pid, {})
-    missing = [n for n in led.get("obligations", []) if n not in obl]
-    missing_covers = [n for n in led.get("covers", []) if n not in covers]
+    # a ledger obligation that is not generated is a checker error (vacuity guard) -- unless a path of the SAME contract ended
+    # undecided (an unmodelled construct met before the clause was reached): then the absence is explained and the verdict is
+    # "undecided" (exit 2), which is what the UNDECIDED lines report
+    und_contracts = {u.get("contract") for u in undecided_paths}
+    explained = lambda n: any(n.startswith(c + "/") for c in und_contracts if c)
+    missing = [n for n in led.get("obligations", []) if n not in obl and not explained(n)]
+    missing_covers = [n for n in led.get("covers", []) if n not in covers and not explained(n)]
 
     # ---------------- bounded stand-in / cross-check
     bounded = None
